@@ -534,6 +534,531 @@ def case_json(ops, res):
             "impl_records": [list(r) for r in res["recs"]], "impl_crashed": res["crashed"], "why": res["why"]}
 
 
+# ================================================================= end-to-end programs
+PRELUDE_C = r"""
+#define _GNU_SOURCE
+#include <stdio.h>
+#include <stdlib.h>
+#include <string.h>
+#include <setjmp.h>
+#include <signal.h>
+#include <unistd.h>
+#include <pthread.h>
+#include <sys/wait.h>
+static __thread volatile int D;   /* the program's own idea of its call depth */
+static __thread int TASK;
+static volatile int sink;
+static jmp_buf jb[8];
+#define NI __attribute__((noinline))
+__attribute__((no_instrument_function)) static void logline(const char *what, const char *name, int d)
+{
+	char buf[96];
+	int n = snprintf(buf, sizeof buf, "%s %d %s %d\n", what, TASK, name, d);
+	if (write(1, buf, n) < 0) _exit(99);
+}
+#define ENTER(name) do { logline("E", name, D); D++; } while (0)
+#define CALL(f, x) do { int s_ = D; sink += f(x); D = s_; } while (0)
+"""
+
+SETJMP_FAMILY = ("setjmp", "_setjmp", "sigsetjmp", "__sigsetjmp")
+LONGJMP_FAMILY = ("longjmp", "siglongjmp", "__longjmp_chk")
+
+
+class E2EGen:
+    """generates one deterministic C or C++ program by simulating its execution; everything the
+    ground truth needs (depth of every call, order of setjmp/longjmp) is logged by the program itself"""
+
+    def __init__(self, rng, lang, allow_old_jmpbuf=False):
+        self.rng = rng
+        self.lang = lang
+        self.funcs = []            # (name, body lines, is_tail)
+        self.nf = 0
+        self.njb = 0
+        self.latest_jb = None
+        self.tags = set()
+        self.budget = rng.choice([8, 14, 22])
+        self.allow_old = allow_old_jmpbuf
+        self.thread_used = False
+        self.has_sig = False
+
+    def new_func(self):
+        self.nf += 1
+        return "fn_%d" % self.nf
+
+    # a body is generated in EXECUTION order; returns (lines, terminator)
+    def gen_body(self, depth, active_jbs, in_try, in_thread, ind="\t"):
+        rng = self.rng
+        lines = []
+        n = rng.randrange(1, 4)
+        for _ in range(n):
+            if self.budget <= 0:
+                break
+            x = rng.random()
+            if x < 0.42 and depth < 9:
+                fn, term = self.gen_func(depth + 1, active_jbs, in_try, in_thread)
+                lines.append(ind + "CALL(%s, %d);" % (fn, rng.randrange(1, 9)))
+                if term:
+                    return lines, term
+            elif x < 0.50:
+                lines.append(ind + "sink += %d; puts(\"p\");" % rng.randrange(1, 9))
+                self.tags.add("libcall")
+            elif x < 0.62 and self.lang == "c" and self.njb < 8 and not in_thread:
+                k = self.njb
+                self.njb += 1
+                self.latest_jb = k
+                self.tags.add("setjmp")
+                sj = rng.choice(["setjmp(jb[%d])", "_setjmp(jb[%d])", "sigsetjmp(jb[%d], 1)"]) % k
+                lines.append(ind + "{ volatile int sd_ = D; logline(\"J\", \"jb\", %d);" % k)
+                lines.append(ind + "if (%s == 0) {" % sj)
+                body, term = self.gen_body(depth, active_jbs + [k], in_try, in_thread, ind + "\t")
+                lines += body
+                lines.append(ind + "} else { D = sd_; logline(\"B\", \"jb\", %d);" % k)
+                if term == ("lj", k):
+                    eb, term2 = self.gen_body(depth, active_jbs, in_try, in_thread, ind + "\t")
+                    lines += eb
+                    lines.append(ind + "} }")
+                    if term2:
+                        return lines, term2
+                else:
+                    lines.append(ind + "} }")
+                    if term:
+                        return lines, term
+            elif x < 0.72 and self.lang == "c" and active_jbs:
+                cands = [k for k in active_jbs if self.allow_old or k == self.latest_jb]
+                if cands:
+                    k = rng.choice(cands)
+                    if k != self.latest_jb:
+                        self.tags.add("longjmp-to-older-jmpbuf")
+                    self.tags.add("longjmp")
+                    self.tags.add("longjmp-depth-%d" % min(depth, 4))
+                    lj = "longjmp" if rng.random() < 0.7 else "siglongjmp"
+                    lines.append(ind + "logline(\"L\", \"jb\", %d); %s(jb[%d], 1);" % (k, lj, k))
+                    return lines, ("lj", k)
+            elif x < 0.62 and self.lang == "c++":
+                self.tags.add("try")
+                lines.append(ind + "{ volatile int sd_ = D; try {")
+                body, term = self.gen_body(depth, active_jbs, in_try + 1, in_thread, ind + "\t")
+                lines += body
+                if term == ("throw",):
+                    self.tags.add("catch")
+                    lines.append(ind + "} catch (int ev_) { D = sd_; logline(\"C\", \"catch\", ev_);")
+                    # calls made by the handler must not throw past it (that is the _Unwind_Resume defect class);
+                    # the handler itself may rethrow
+                    hb, term2 = self.gen_body(depth, active_jbs, 0, in_thread, ind + "\t")
+                    lines += hb
+                    if not term2 and in_try > 0 and rng.random() < 0.3:
+                        self.tags.add("rethrow")
+                        lines.append(ind + "\tthrow;")
+                        term2 = ("throw",)
+                    lines.append(ind + "} }")
+                    if term2:
+                        return lines, term2
+                else:
+                    lines.append(ind + "} catch (int ev_) { D = sd_; logline(\"C\", \"catch\", ev_); } }")
+                    if term:
+                        return lines, term
+            elif x < 0.74 and self.lang == "c++" and in_try > 0:
+                self.tags.add("throw")
+                self.tags.add("throw-depth-%d" % min(depth, 5))
+                lines.append(ind + "throw %d;" % rng.randrange(1, 50))
+                return lines, ("throw",)
+            elif x < 0.78 and not in_thread and not self.has_sig:
+                self.has_sig = True
+                self.tags.add("signal-handler")
+                hn, _t = self.gen_func(depth + 2, [], 0, in_thread, leafish=True)
+                self.sig_handler = hn
+                lines.append(ind + "signal(SIGUSR1, on_sig); D++; raise(SIGUSR1); D--;")
+            elif x < 0.82 and not in_thread:
+                self.tags.add("vfork-exec")
+                lines.append(ind + "{ pid_t p_ = vfork(); if (p_ == 0) { execl(\"/bin/true\", \"true\", (char *)0); _exit(9); } "
+                                   "int st_ = 0; waitpid(p_, &st_, 0); sink += WEXITSTATUS(st_); }")
+            elif x < 0.86 and not in_thread and self.lang == "c":
+                self.tags.add("fork")
+                lines.append(ind + "{ pid_t p_ = fork(); if (p_ == 0) { _exit(3); } int st_ = 0; waitpid(p_, &st_, 0); sink += WEXITSTATUS(st_); }")
+            elif x < 0.90 and not in_thread and not self.thread_used and in_try == 0 and not active_jbs and self.lang == "c":
+                self.thread_used = True
+                self.tags.add("thread")
+                fn, term = self.gen_func(0, [], 0, True, thread_root=True)
+                lines.append(ind + "{ pthread_t t_; pthread_create(&t_, NULL, th_main, NULL); pthread_join(t_, NULL); }")
+                self.thread_entry = fn
+            elif x < 0.95 and not in_thread and depth >= 2 and in_try == 0:
+                self.tags.add("exit-nested")
+                lines.append(ind + "exit(%d);" % rng.randrange(0, 40))
+                return lines, ("exit",)
+            else:
+                lines.append(ind + "sink += %d;" % rng.randrange(1, 9))
+        return lines, None
+
+    def gen_func(self, depth, active_jbs, in_try, in_thread, leafish=False, thread_root=False):
+        name = self.new_func()
+        self.budget -= 1
+        idx = len(self.funcs)
+        self.funcs.append(None)
+        guard = self.lang == "c++" and self.rng.random() < 0.5
+        if leafish:
+            body, term = (["\tsink += 1;"], None)
+        else:
+            body, term = self.gen_body(depth, active_jbs, in_try, in_thread)
+        tail = None
+        if not term and not guard and not leafish and self.budget > 0 and self.rng.random() < 0.3 and depth < 9:
+            tfn, term = self.gen_func(depth + 1, active_jbs, in_try, in_thread)
+            tail = tfn
+            self.tags.add("tail-position-call")
+        lines = ["static NI int %s(int x)" % name, "{", "\tENTER(\"%s\");" % name]
+        if guard:
+            lines.append("\tGuard g_(%d);" % self.rng.randrange(1, 9))
+            self.tags.add("cleanup-guard")
+        lines += body
+        if tail:
+            lines.append("\treturn %s(x + 1);" % tail)
+        else:
+            lines.append("\treturn x + 1;")
+        lines.append("}")
+        self.funcs[idx] = (name, lines)
+        return name, term
+
+    def source(self):
+        rng = self.rng
+        body, term = self.gen_body(0, [], 0, False)
+        out = [PRELUDE_C]
+        if self.lang == "c++":
+            out.append("struct Guard { int v; int d0; NI Guard(int v_) : v(v_), d0(D) { sink += v; }\n"
+                       "  NI ~Guard() { D = d0; logline(\"E\", \"dtor\", D); sink += v; } };\n")
+        for name, _ in self.funcs:
+            out.append("static int %s(int x);" % name)
+        if self.has_sig:
+            out.append("static void on_sig(int s) { (void)s; int s_ = D; D++; sink += %s(1); D = s_; }" % self.sig_handler)
+        if self.thread_used:
+            out.append("static void *th_main(void *a) { (void)a; TASK = 1; D = 1; sink += %s(1); return NULL; }" % self.thread_entry)
+        # callees are defined after their callers (prototypes above): bodies in reverse creation order
+        for name, lines in self.funcs:
+            out.append("\n".join(lines))
+        out.append("int main(void)\n{\n\tsetvbuf(stdout, NULL, _IONBF, 0);\n\tENTER(\"main\");")
+        out += body
+        out.append("\tlogline(\"S\", \"sink\", sink);\n\treturn sink & 63;\n}")
+        return "\n".join(out) + "\n"
+
+
+E2E_WITNESS_OLD_JMPBUF = PRELUDE_C + r"""
+static NI int leaf(int x) { ENTER("fn_leaf"); return x + 1; }
+static NI int c(int x) { ENTER("fn_c"); CALL(leaf, 1); logline("L", "jb", 0); longjmp(jb[0], 1); return x; }
+static NI int b(int x) { ENTER("fn_b"); { volatile int sd_ = D; logline("J", "jb", 1);
+	if (setjmp(jb[1]) == 0) { CALL(c, 1); } else { D = sd_; } } return x; }
+static NI int a(int x) { ENTER("fn_a"); { volatile int sd_ = D; logline("J", "jb", 0);
+	if (setjmp(jb[0]) == 0) { CALL(b, 1); } else { D = sd_; logline("B", "jb", 0); CALL(leaf, 2); } } CALL(leaf, 3); return x; }
+int main(void) { setvbuf(stdout, NULL, _IONBF, 0); ENTER("main"); CALL(a, 1); CALL(leaf, 4); logline("S", "sink", sink); return 0; }
+"""
+
+E2E_WITNESS_RESUME_ALIAS = r"""
+#include <cstdio>
+volatile int sink;
+struct G { int id; G(int i) : id(i) {} ~G() { sink += id; } };     /* inlined at -O2: no traced call in the pad */
+__attribute__((noinline)) void t3(int x) { sink += 1; if (x) throw 7; sink += 2; }
+__attribute__((noinline)) void t2(int x) { G g(2); sink += 3; t3(x); sink += 4; }
+__attribute__((noinline)) void t1(int x) { try { t2(x); } catch (int e) { sink += e; } }
+int main() { t1(1); printf("%d\n", sink); return 0; }
+"""
+
+E2E_WITNESS_FENTRY = r"""
+#include <cstdio>
+volatile int sink;
+struct G { int id; __attribute__((noinline)) G(int i) : id(i) {} __attribute__((noinline)) ~G() { sink += id; } };
+__attribute__((noinline)) void t3(int x) { sink += 1; if (x) throw 7; sink += 2; }
+__attribute__((noinline)) void t2(int x) { G g(2); sink += 3; t3(x); sink += 4; }
+__attribute__((noinline)) void t1(int x) { try { t2(x); } catch (int e) { sink += e; } }
+int main() { t1(1); printf("%d\n", sink); return 0; }
+"""
+
+E2E_WITNESS_THROW_IN_HANDLER = r"""
+#include <cstdio>
+volatile int sink;
+__attribute__((noinline)) void thrower(int v) { sink += 1; throw v; }
+__attribute__((noinline)) void mid(int x)
+{
+	try { thrower(1); }
+	catch (int e) { sink += e; thrower(2); }      /* a callee of the handler throws past it */
+}
+int main() { try { mid(1); } catch (int e) { sink += 10 * e; } printf("%d\n", sink); return 0; }
+"""
+
+E2E_WITNESS_PTHREAD_EXIT_C = r"""
+#include <stdio.h>
+#include <pthread.h>
+volatile int sink;
+__attribute__((noinline)) int g(int x) { sink += x; pthread_exit(NULL); return x; }
+__attribute__((noinline)) int f(int x) { sink += g(x); return x + 1; }
+void *th(void *a) { sink += f(1); return NULL; }
+__attribute__((noinline)) int after(int x) { sink += x; return x; }
+int main(void) { pthread_t t; pthread_create(&t, NULL, th, NULL); pthread_join(t, NULL); after(2); printf("%d\n", sink); return 0; }
+"""
+
+E2E_WITNESS_PTHREAD_EXIT_CPP = r"""
+#include <cstdio>
+#include <pthread.h>
+volatile int sink;
+struct G { int id; __attribute__((noinline)) G(int i) : id(i) {} __attribute__((noinline)) ~G() { sink += id; } };
+__attribute__((noinline)) int g(int x) { G a(10); sink += x; pthread_exit(NULL); return x; }
+void *th(void *a) { G b(100); sink += g(1); return NULL; }
+int main(void) { pthread_t t; pthread_create(&t, NULL, th, NULL); pthread_join(t, NULL); printf("%d\n", sink); return 0; }
+"""
+
+FLAGS = {"c": [["-pg", "-O0"], ["-pg", "-O2"], ["-finstrument-functions", "-O0"], ["-finstrument-functions", "-O2"]],
+         "c++": [["-pg", "-O0"], ["-pg", "-O2"], ["-finstrument-functions", "-O1"]]}
+
+LINE_RE = re.compile(r"^\s*\[\s*(\d+)\] \| ( *)([^ ].*)$")
+
+
+def parse_replay(text):
+    """-> {tid: [(name, depth) for every ENTRY line]}"""
+    res = {}
+    for line in text.splitlines():
+        mt = LINE_RE.match(line)
+        if not mt:
+            continue
+        tid, ind, rest = int(mt.group(1)), len(mt.group(2)), mt.group(3)
+        if rest.startswith("}") or rest.startswith("/*"):
+            continue
+        nm = re.match(r"([^\s(]+(?: [^\s(]+)*?)\(", rest)
+        if not nm:
+            continue
+        res.setdefault(tid, []).append((re.sub(r"\.(constprop|isra|part|cold|lto_priv)\.\d+", "", nm.group(1)), ind // 2))
+    return res
+
+
+DUMP_RE = re.compile(r"^\s*[\d.]+\s+(\d+): \[(entry|exit )\] (.*?)\(([0-9a-f]+)\) depth: (\d+)")
+
+
+def parse_dump(text):
+    res = {}
+    for line in text.splitlines():
+        mt = DUMP_RE.match(line)
+        if mt:
+            res.setdefault(int(mt.group(1)), []).append((mt.group(2).strip(), mt.group(3), int(mt.group(5))))
+    return res
+
+
+def run_e2e_one(ctx, objdir, wd, name, src, lang, flags, timeout_native=10, timeout_rec=25):
+    """compile, run natively and under uftrace; returns a dict of observations"""
+    os.makedirs(wd, exist_ok=True)
+    ext = ".c" if lang == "c" else ".cpp"
+    sp = os.path.join(wd, name + ext)
+    open(sp, "w").write(src)
+    exe = os.path.join(wd, name)
+    cc = ["gcc"] if lang == "c" else ["g++"]
+    rc, o, e = sh(cc + flags + ["-w", "-pthread", "-o", exe, sp], timeout=120)
+    if rc != 0:
+        return {"error": "compile failed: " + e[-400:]}
+    nrc, nout, _ = sh(["timeout", str(timeout_native), exe], timeout=timeout_native + 5, cwd=wd)
+    data = os.path.join(wd, name + ".data")
+    uft = os.path.join(objdir, "uftrace")
+    trc, tout, terr = sh(["timeout", str(timeout_rec), uft, "record", "--no-pager", "--no-event",
+                          "--libmcount-path=" + objdir, "-d", data, exe], timeout=timeout_rec + 10, cwd=wd)
+    obs = {"native_rc": nrc, "native_out": nout, "traced_rc": trc, "traced_out": tout, "record_err": terr[-300:]}
+    if trc == 124 or not os.path.isdir(data):
+        return obs
+    try:
+        mt = re.search(rb"exit_status:(\d+)", open(os.path.join(data, "info"), "rb").read())
+        if mt:
+            st = int(mt.group(1))
+            obs["traced_status"] = (st >> 8) & 0xff if (st & 0x7f) == 0 else 128 + (st & 0x7f)
+    except OSError:
+        pass
+    rrc, rout, rerr = sh(["timeout", "30", uft, "replay", "--no-pager", "-d", data, "-f", "tid"], timeout=40, cwd=wd)
+    obs["replay_rc"] = rrc
+    obs["replay"] = parse_replay(rout)
+    obs["replay_text"] = rout[:6000]
+    drc, dout, _ = sh(["timeout", "30", uft, "dump", "--no-pager", "-d", data], timeout=40, cwd=wd)
+    obs["dump"] = parse_dump(dout)
+    shutil.rmtree(data, ignore_errors=True)
+    return obs
+
+
+def ground_truth(out):
+    """the program's own log -> {task: [(name, depth)]}, setjmp order, longjmp order"""
+    calls, sj, lj = {}, [], []
+    for line in out.splitlines():
+        w = line.split()
+        if len(w) != 4:
+            continue
+        if w[0] == "E":
+            calls.setdefault(int(w[1]), []).append((w[2], int(w[3])))
+        elif w[0] == "J":
+            sj.append(int(w[3]))
+        elif w[0] == "L":
+            lj.append(int(w[3]))
+    return calls, sj, lj
+
+
+def own_funcs(entries):
+    return [(n, d) for n, d in entries if n.startswith("fn_") or n == "main" or n.endswith("::~Guard")]
+
+
+def judge_e2e(obs):
+    """-> (list of problems, stream for Coq or None).  problems: (kind, text)"""
+    probs = []
+    if "error" in obs:
+        return [("machinery", obs["error"])], None
+    if obs["traced_rc"] == 124:
+        return [("hang", "the traced program (or uftrace record) did not terminate; native run exits with %s" % obs["native_rc"])], None
+    if obs["native_rc"] != obs.get("traced_status"):
+        probs.append(("status", "exit status %s natively, %s under uftrace record (%s)" % (obs["native_rc"], obs.get("traced_status"), obs.get("record_err", ""))))
+    if obs["native_out"] != obs["traced_out"]:
+        probs.append(("output", "program output differs between the native and the traced run"))
+    if "replay" not in obs:
+        probs.append(("replay", "no trace data"))
+        return probs, None
+    calls, sj, lj = ground_truth(obs["traced_out"])
+    rp = obs["replay"]
+    main_tid = None
+    for tid, ents in rp.items():
+        if any(n == "main" for n, _ in ents):
+            main_tid = tid
+    if main_tid is None:
+        probs.append(("replay", "main() not found in replay output"))
+        return probs, None
+    for task, want in calls.items():
+        if task == 0:
+            got = own_funcs(rp[main_tid])
+        else:
+            others = [own_funcs(e) for t, e in rp.items() if t != main_tid and own_funcs(e)]
+            got = others[0] if others else []
+        want2 = [("Guard::~Guard" if n == "dtor" else n, d) for n, d in want]
+        if [n for n, _ in got] != [n for n, _ in want2]:
+            probs.append(("calls", "task %d: replay shows calls %s..., the program made %s..." % (
+                task, [n for n, _ in got][:12], [n for n, _ in want2][:12])))
+        elif got != want2:
+            k = [i for i in range(len(got)) if got[i] != want2[i]][0]
+            probs.append(("depth", "task %d: call #%d %s shown at depth %d, true depth %d" % (
+                task, k, got[k][0], got[k][1], want2[k][1])))
+    # the record stream of the main task for the replay model (setjmp/longjmp programs)
+    stream = None
+    if sj and main_tid in obs.get("dump", {}):
+        es, si, li = [], 0, 0
+        ok = True
+        for ty, nm, dep in obs["dump"][main_tid]:
+            if ty == "entry":
+                if nm in SETJMP_FAMILY:
+                    if si >= len(sj):
+                        ok = False
+                        break
+                    es.append("SEntry (SSetjmp %d)" % sj[si])
+                    si += 1
+                elif nm in LONGJMP_FAMILY:
+                    if li >= len(lj):
+                        ok = False
+                        break
+                    es.append("SEntry (SLongjmp %d)" % lj[li])
+                    li += 1
+                else:
+                    es.append("SEntry SNormal")
+            else:
+                es.append("SExit")
+        if ok and len(es) < 3000:
+            stream = (es, [d for _, d in rp[main_tid]])
+    return probs, stream
+
+
+def run_e2e(ctx, objdir):
+    from concurrent.futures import ThreadPoolExecutor
+    rng = ctx.rng
+    cases = []
+    for i in range(ctx.n(14, 220)):
+        lang = "c" if i % 5 < 3 else "c++"
+        g = E2EGen(rng, lang)
+        src = g.source()
+        flags = rng.choice(FLAGS[lang])
+        cases.append({"name": "p%d" % i, "src": src, "lang": lang, "flags": flags, "tags": sorted(g.tags)})
+    witnesses = [
+        {"name": "w_oldjb", "src": E2E_WITNESS_OLD_JMPBUF, "lang": "c", "flags": ["-pg", "-O0"], "key": "replay-older-jmpbuf",
+         "what": "longjmp to a jmp_buf that is not the most recent setjmp: replay shows the calls made after the jump one "
+                 "level too deep (utils/fstack.c keeps one global setjmp_depth/setjmp_count)"},
+        {"name": "w_handler", "src": E2E_WITNESS_THROW_IN_HANDLER, "lang": "c++", "flags": ["-pg", "-O0"], "key": "unwind-resume-alias",
+         "what": "an exception leaves a frame whose cleanup pad calls no traced function (here: thrown by a callee of a catch "
+                 "handler): libmcount's _Unwind_Resume wrapper overwrites its own return address with the dead callee's and the "
+                 "traced program never terminates"},
+        {"name": "w_resume", "src": E2E_WITNESS_RESUME_ALIAS, "lang": "c++", "flags": ["-pg", "-O2"], "key": "unwind-resume-alias-O2",
+         "what": "same defect with an inlined destructor at -O2"},
+        {"name": "w_fentry", "src": E2E_WITNESS_FENTRY, "lang": "c++", "flags": ["-pg", "-mfentry", "-O0"], "key": "fentry-cleanup-depth",
+         "what": "-mfentry: a destructor called from a cleanup pad is shown as a child of the function just unwound"},
+        {"name": "w_pexit_c", "src": E2E_WITNESS_PTHREAD_EXIT_C, "lang": "c", "flags": ["-pg", "-O0"], "key": "pthread-exit-nested",
+         "what": "pthread_exit from a nested traced call: the entries left on the shadow stack are `restored` by mtd_dtor onto "
+                 "stack slots that are in use again - the traced program dies with SIGSEGV"},
+        {"name": "w_pexit_cpp", "src": E2E_WITNESS_PTHREAD_EXIT_CPP, "lang": "c++", "flags": ["-pg", "-O0"], "key": "pthread-exit-destructors",
+         "what": "pthread_exit in a traced C++ thread: the forced unwind stops at the hijacked return address of pthread_exit, "
+                 "destructors of the live frames do not run (the program computes a different result)"},
+    ]
+    wd = os.path.join(ctx.scratch, "e2e")
+
+    def work(c):
+        to = 6 if c["name"] in ("w_resume", "w_handler") else 25
+        return run_e2e_one(ctx, objdir, os.path.join(wd, c["name"]), c["name"], c["src"], c["lang"], c["flags"], timeout_rec=to)
+    with ThreadPoolExecutor(max_workers=8) as ex:
+        results = list(ex.map(work, cases + witnesses))
+    streams = []
+    nviol = 0
+    for c, obs in zip(cases, results[:len(cases)]):
+        probs, stream = judge_e2e(obs)
+        tags = ["e2e:" + t for t in c["tags"]] + ["e2e:lang=" + c["lang"], "e2e:" + " ".join(c["flags"])]
+        ctx.case(key=("e2e", c["src"], tuple(c["flags"])), nontrivial=any(t in c["tags"] for t in ("longjmp", "throw", "exit-nested", "thread", "vfork-exec", "signal-handler")),
+                 tags=tags, size=len(c["src"]))
+        mach = [p for p in probs if p[0] == "machinery"]
+        if mach:
+            ctx.broken("e2e machinery: " + mach[0][1])
+            continue
+        if probs and nviol < 3:
+            nviol += 1
+            ctx.violation("C11 violated end-to-end (%s): %s" % (probs[0][0], probs[0][1]),
+                          {"mode": "e2e", "program": c["src"], "lang": c["lang"], "flags": c["flags"],
+                           "problems": [list(p) for p in probs],
+                           "native": {"rc": obs.get("native_rc"), "out": obs.get("native_out", "")[-1500:]},
+                           "traced": {"rc": obs.get("traced_status"), "out": obs.get("traced_out", "")[-1500:]},
+                           "replay_text": obs.get("replay_text", "")}, True)
+        if stream:
+            streams.append((c, stream))
+    # record streams of the setjmp/longjmp programs against the replay model, inside Coq
+    wres = dict(zip([w["name"] for w in witnesses], results[len(cases):]))
+    wprobs = {}
+    for w in witnesses:
+        probs, stream = judge_e2e(wres[w["name"]])
+        wprobs[w["name"]] = probs
+        if w["name"] == "w_oldjb" and stream:
+            streams.append((w, stream))
+    if streams:
+        defs = "Definition ss : list (list sev * list N) := [\n%s\n].\n" % ";\n".join(
+            "([%s], [%s])" % ("; ".join(es), "; ".join("%d" % d for d in shown)) for _, (es, shown) in streams)
+        ev = coq.run_cases(ctx, "replay_streams", PRE, defs, [
+            ("mismatch", "bad_indices (fun p => agree_replay_entries (fst p) (snd p)) ss 0"),
+            ("violations", "bad_indices (fun p => ok_replay_entries (fst p) (snd p)) ss 0")])
+        if ev is not None:
+            mm = coq.parse_nat_list(ev["mismatch"])
+            vv = coq.parse_nat_list(ev["violations"])
+            ctx.extra["replay_streams_checked"] = len(streams)
+            for i in vv:
+                c = streams[i][0]
+                if c.get("key") == "replay-older-jmpbuf":
+                    continue            # judged below as the dedicated witness
+                ctx.violation("C11 violated: the depths `uftrace replay` shows differ from the true depths of the record stream "
+                              "(ok_replay_entries rejects the implementation's output)",
+                              {"mode": "e2e-replay", "program": c["src"], "flags": c["flags"]}, True)
+            if mm and not [i for i in vv if streams[i][0].get("key") != "replay-older-jmpbuf"]:
+                c = streams[mm[0]][0]
+                ctx.violation("replay model and `uftrace replay` disagree on %d record stream(s)" % len(mm),
+                              {"mode": "e2e-replay", "correspondence": "C11.Model.rp_run vs uftrace replay",
+                               "first_disagreement": {"program": c["src"], "flags": c["flags"]}}, False)
+    # dedicated witnesses of the defects found (listed -> KNOWN-FINDING, unlisted -> recorded as candidates)
+    cand = []
+    for w in witnesses:
+        probs = wprobs[w["name"]]
+        still = bool(probs) and not any(p[0] == "machinery" for p in probs)
+        ctx.case(key=("witness", w["key"]), tags=["e2e:witness:" + w["key"], "e2e:witness-%s" % ("fails" if still else "passes")])
+        if ctx.kf.listed(ctx.prop, w["key"]):
+            ctx.known_finding(w["key"], w["what"], still, {"mode": "e2e", "program": w["src"], "flags": w["flags"]})
+        elif still:
+            cand.append({"key": w["key"], "what": w["what"], "observed": [list(p) for p in probs], "flags": w["flags"]})
+            ctx.log("candidate finding (not listed in known-findings.txt, not counted): %s - %s" % (w["key"], probs[0][1]))
+    ctx.extra["candidate_findings"] = cand
+
+
 # ================================================================= entry points
 def common_meta(ctx):
     ctx.rule = ("in-process: one case = one generated operation sequence (legal program of <= ~70 operations or "
@@ -623,6 +1148,7 @@ def run(ctx):
     coq.prove(ctx, "C11")
     objdir = build.get_build("plain", ctx.log)
     run_inproc(ctx, objdir)
+    run_e2e(ctx, objdir)
 
 
 def replay(ctx, obj):
